@@ -9,12 +9,16 @@ package inmem
 
 // The event index lives in a table of struct *values* (outside the ghost-table model). ASSUMED contracts: the
 // metadata table operations do not fail on the statically valid table (A-MEMDB-NOERR) and touch no resource.
+// ASSUMED frames: the event index bump writes only the metadata table; publishing an event touches only the stream
+// publisher - neither writes the resources table or a resource object.
 //@ func incrementEventIndex
 //@ trusted
 //@ results idx, err
 //@ ensures[no-error] err == nil
+//@ modifies nothing
 //@ func Store.publishEvent
 //@ trusted
+//@ modifies nothing
 
 //@ func Store.WriteCAS
 //@ props C18
